@@ -89,16 +89,18 @@ func vPeerAPI() *webrtc.API {
 }
 
 type vPeer struct {
-	pc     *webrtc.PeerConnection
-	dc     *webrtc.DataChannel
-	offer  string // serialised session description (with candidates)
-	open   chan struct{}
-	closed chan struct{} // data channel closed or peer connection gone
-	inbox  chan string
+	pc        *webrtc.PeerConnection
+	dc        *webrtc.DataChannel
+	offer     string // serialised session description (with candidates)
+	open      chan struct{}
+	closed    chan struct{} // data channel closed or peer connection gone
+	connected chan struct{} // peer connection reached "connected" (ICE and DTLS up)
+	inbox     chan string
 
 	mu       sync.Mutex
 	openOnce sync.Once
 	clOnce   sync.Once
+	connOnce sync.Once
 	applied  bool
 	shut     bool
 	seq      int
@@ -106,14 +108,28 @@ type vPeer struct {
 
 // vNewPeer creates a peer connection with one data channel and a complete
 // offer (host candidates only: no ICE servers, gathering is immediate).
-func vNewPeer() (*vPeer, error) {
+func vNewPeer() (*vPeer, error) { return vNewPeerOpt(false) }
+
+// vNewPeerNegotiated: the offer's only data channel is pre-negotiated, so the
+// transport (ICE, DTLS, SCTP) comes up but no channel is ever announced to the
+// other side (no DCEP OPEN): a client that connects and never opens a channel.
+func vNewPeerNegotiated() (*vPeer, error) { return vNewPeerOpt(true) }
+
+func vNewPeerOpt(negotiated bool) (*vPeer, error) {
 	pc, err := vPeerAPI().NewPeerConnection(webrtc.Configuration{})
 	if err != nil {
 		return nil, err
 	}
-	p := &vPeer{pc: pc, open: make(chan struct{}), closed: make(chan struct{}), inbox: make(chan string, 256)}
+	p := &vPeer{pc: pc, open: make(chan struct{}), closed: make(chan struct{}), connected: make(chan struct{}), inbox: make(chan string, 256)}
 	ordered := true
-	dc, err := pc.CreateDataChannel("verif", &webrtc.DataChannelInit{Ordered: &ordered})
+	init := &webrtc.DataChannelInit{Ordered: &ordered}
+	if negotiated {
+		yes := true
+		id := uint16(0)
+		init.Negotiated = &yes
+		init.ID = &id
+	}
+	dc, err := pc.CreateDataChannel("verif", init)
 	if err != nil {
 		pc.Close()
 		return nil, err
@@ -128,6 +144,9 @@ func vNewPeer() (*vPeer, error) {
 		}
 	})
 	pc.OnConnectionStateChange(func(s webrtc.PeerConnectionState) {
+		if s == webrtc.PeerConnectionStateConnected {
+			p.connOnce.Do(func() { close(p.connected) })
+		}
 		if s == webrtc.PeerConnectionStateFailed || s == webrtc.PeerConnectionStateClosed || s == webrtc.PeerConnectionStateDisconnected {
 			p.clOnce.Do(func() { close(p.closed) })
 		}
@@ -192,6 +211,15 @@ func (p *vPeer) isClosed() bool {
 func (p *vPeer) waitOpen(d time.Duration) bool {
 	select {
 	case <-p.open:
+		return true
+	case <-time.After(d):
+		return false
+	}
+}
+
+func (p *vPeer) waitConnected(d time.Duration) bool {
+	select {
+	case <-p.connected:
 		return true
 	case <-time.After(d):
 		return false
